@@ -351,6 +351,11 @@ where
                     Err(nom::Err::Error(err)) => affected_error(err.input),
                     Err(_) => panic!("Incomplete data"),
                 }
+            } else if input.location_offset() != input.token_change.new_token_pos(this_range.start)
+            {
+                // There are unconsumed tokens in front of this node,
+                // so it cannot be re-used at the current position.
+                affected_error(input)
             } else {
                 fn remove_messages(info: &mut AstInfo) {
                     info.errors.retain(|err| {
